@@ -117,12 +117,23 @@ func c12(r *rep.Run) {
 		keptSnap := make([][]string, len(evented))
 		drive.ForBindings(Doms(p.Vars, true), vals, func() bool {
 			nb++
-			for mode := 0; mode < 2; mode++ { // 0 Eval, 1 TryEval (all available)
+			for mode := 0; mode < 3; mode++ { // 0 Eval, 1 TryEval (all available), 2 TryEval (first variable unavailable)
+				if mode == 2 && (len(p.Vars) == 0 || vals[0] == interface{}(ref.ErrFetch)) {
+					continue
+				}
 				for k := range evented {
 					c := &evented[k]
 					pl := &plain[c.o.OptBits()]
 					copy(pl.f.Vals, vals)
 					copy(c.f.Vals, vals)
+					pl.f.Avail, c.f.Avail = nil, nil
+					if mode == 2 {
+						av := make([]bool, len(p.Vars))
+						for x := range av {
+							av[x] = x != 0
+						}
+						pl.f.Avail, c.f.Avail = av, av
+					}
 					h.Reset()
 					var want drive.Out
 					if mode == 0 {
@@ -141,7 +152,7 @@ func c12(r *rep.Run) {
 					tr += int64(len(h.Events)) + 1
 					d := func(extra map[string]interface{}) map[string]interface{} {
 						m := caseDesc(p.Src, c.o, p.Vars, vals, nil, extra)
-						m["entry"] = []string{"Eval", "TryEval"}[mode]
+						m["entry"] = []string{"Eval", "TryEval", "TryEval with the first variable unavailable"}[mode]
 						return m
 					}
 					if !drive.SameOutcome(got, want) {
@@ -198,6 +209,9 @@ func c12(r *rep.Run) {
 							addRange(ev.Stack)
 							for _, v := range ev.Stack {
 								key := fmt.Sprintf("%T:%v", v, v)
+								if isDNE(v) {
+									continue // the value of an unavailable variable
+								}
 								if !consts[key] && !produced[key] && !producedByOps(opEvents, v) {
 									r.Violate("loop-stack-garbage", p.Src+c.o.String(), sprintf("LOOP event at position %d shows stack value %v that nothing in this evaluation produced", ld.CurtIdx, v), d(map[string]interface{}{"stack": fmt.Sprint(ev.Stack)}))
 								}
